@@ -184,6 +184,9 @@ func c01(c *Ctx) {
 	// pads after the payload and the demuxer returns the padding as payload)
 	lk := layout.New(c.P)
 	c01Stuffing(c, lk)
+	// the joints above assume that writePacket pads nothing after the payload: rule F1 discharges that assumption (every
+	// packet WriteData builds fills the packet exactly, on every path of the packetisation loop)
+	c04ExactFill(c)
 	muxstate.ESPairing(c.P, r)
 	c01AFCarried(c)
 	c01StuffingReset(c)
